@@ -307,7 +307,9 @@ def run_item(item):
                 nval += 1
                 res["traces_validated_against_impl"] += 1
                 if ok:
-                    res.setdefault("harness_errors", []).append("concolic mismatch: path proven but concrete replay differs: %s %s %s: %s" % (name, mode, data.hex(), detail))
+                    # the solver model of a path, run through the REAL disassembler with the real hooks, disagrees with the
+                    # linear scan: a concrete witness of the property's violation (hooks may reject where the recorder accepted)
+                    res["violations"].append({"key": "tree route differs from the most-constrained-first:%s:%s:concrete" % (name, sorted(mode.items())), "desc": "real disassembler vs linear scan | %s mode=%s input=%s | %s" % (name, mode, data.hex(), detail), "replay": rep, "reproduced": True})
     if paths:
         p = paths[len(paths) // 2]
         res["samples"].append({"cpu": name, "mode": mode, "input_len": n, "hooks": "accept" if accept else "reject-all", "paths": len(paths), "complete": E.complete,
